@@ -5,7 +5,7 @@ import numpy as np
 import pandas as pd
 
 from .. import attach, gen, poollog, purity
-from ..runner import quiet
+from ..runner import quiet, guarded
 
 PROP = 'C15'
 
@@ -290,7 +290,7 @@ def run(sh):
     rng = gen.rng_for(sh.seed, PROP, sh.shard)
     K = 25 if sh.tier == 'quick' else 600
     for it in range(K):
-        run_sequence(sh, make_case(rng))
+        guarded(sh, run_sequence, sh, make_case(rng))
     for k, v in attach.COUNTS.items():
         if k.startswith('eval:purity:'):
             sh.classes['fingerprinted:' + k[12:]] = v
